@@ -690,7 +690,9 @@ pub mod hazmat {
     //! inverse bijections on byte-given values of the key's width (size() bytes, leading zeros significant for identity but
     //! stripped by `to_bytes_be`): a small table in this crate records (pid, m, c) pairs; a new `rsa_encrypt(pid, m)` returns
     //! the recorded c for a recorded m and otherwise a fresh c different from every recorded c of that key; `rsa_decrypt`
-    //! returns the recorded m for a recorded c and otherwise a fresh m different from every recorded m. Results may have
+    //! returns the recorded m for a recorded c and otherwise a fresh m different from every recorded m. IDEAL-RSA assumption
+    //! across keys: two different keys never map the same recorded input to the same output (k1.seal binds a sealed key to
+    //! its recipient only through this: the recipient's key is not hashed into Ek / Ak). Results may have
     //! leading zero bytes: HOW MANY is selected per harness with `model::kem_leading_zeros(enc, dec)` and assumed of the fresh
     //! value (so `BigUint::to_bytes_be`, which strips them like num-bigint-dig, has a concrete length; instances with 0 and
     //! with 1 leading zero byte together cover all but 2^-16 of the values). 512-byte values do not fit vmodel-core's uf
@@ -758,13 +760,17 @@ pub mod hazmat {
                     same_key &= e.pid[i] == pid[i];
                     i += 1;
                 }
+                let (ex, ey) = if forward { (&e.m, &e.c) } else { (&e.c, &e.m) };
                 if same_key {
-                    let (ex, ey) = if forward { (&e.m, &e.c) } else { (&e.c, &e.m) };
                     if eq_w(ex, x) {
                         assume(eq_w(ey, &y)); // function
                     } else {
                         assume(!eq_w(ey, &y)); // injective
                     }
+                } else if eq_w(ex, x) {
+                    // IDEAL: the permutations of two different keys do not agree on a recorded point (decrypting a ciphertext
+                    // with another recipient's key does not give the sender's integer back)
+                    assume(!eq_w(ey, &y));
                 }
                 j += 1;
             }
